@@ -2,9 +2,9 @@
 Built-in filters / tests / functions, float arithmetic and float printing for the whole-engine
 driver (Driver/Pipeline.lean).  This is a COPY of the corresponding part of Driver/Vm.lean (p2_vm;
 a driver root cannot be imported by another driver: both define `main`), wrapped in a namespace.
-The models are those of C17 (Model/Builtins.lean) and C16 (Model/CollFilters.lean); `sort`,
-`unique`, `group_by` and whatever they leave open (Unicode case mapping of non-ASCII text, float
-parsing, `round` with a precision) answer `unmodelled`.
+The built-ins themselves are `Tera.Pipeline.BuiltinsM` (Model/PipelineBuiltins.lean: the models of
+C17, C16, C15); what they leave open (Unicode case mapping outside its small table, float
+parsing, `round` with a precision) answers `unmodelled`.
 -/
 import TeraModel.Model.Vm
 import TeraModel.Model.VmCheck
